@@ -90,6 +90,19 @@ func Known(label string, c bool) {
 	}
 }
 
+// GuardMap declares that map m is protected by mutex mu (*sync.Mutex or *sync.RWMutex):
+// under the VM every later read of m requires mu to be held and every write requires it to
+// be write-held; a violation is reported under the given label. Natively it is a no-op.
+func GuardMap(m any, mu any, label string) {}
+
+// KnownFor is Known restricted to the listed assertion labels: other assertions failing on
+// the same inputs are still reported as violations.
+func KnownFor(label string, c bool, asserts ...string) {
+	if c {
+		known = append(known, label)
+	}
+}
+
 func And(a, b bool) bool     { return a && b }
 func Or(a, b bool) bool      { return a || b }
 func Implies(a, b bool) bool { return !a || b }
